@@ -1,10 +1,12 @@
 ---- MODULE Scen_PerUnit ----
 (* (1) exact conversion factors for base tuples handed in by the driver (IOEnv.BASES: JSON list of   *)
-(*     [rv, rs] = [Vn/Vb, Sn/Sb] as reduced <<num,den>> pairs); (2) alter / set / reset sequences for replay.          *)
+(*     [rv, rs, rvd, rid] = [Vn/Vb, Sn/Sb, Vdcn/Vdcb, Idcn/Idcb] as reduced <<num,den>> pairs); (2) alter / set / reset sequences for replay.          *)
 EXTENDS PerUnitK
 Bases == JsonDeserialize(IOEnv.BASES)
 Factors == [i \in DOMAIN Bases |->
-              [k \in Kinds |-> K2(k, <<Bases[i][1][1], Bases[i][1][2]>>, <<Bases[i][2][1], Bases[i][2][2]>>)]]
+              [k \in Kinds \cup DCKinds |->
+                 IF k \in Kinds THEN K2(k, <<Bases[i][1][1], Bases[i][1][2]>>, <<Bases[i][2][1], Bases[i][2][2]>>)
+                 ELSE KDC(k, <<Bases[i][3][1], Bases[i][3][2]>>, <<Bases[i][4][1], Bases[i][4][2]>>)]]
 OpsSet == {"alter_v", "alter_vin", "set", "reset", "group_alter"}
 Seqs(n) == [1..n -> OpsSet]
 ASSUME JsonSerialize(IOEnv.OUT, [factors |-> Factors, seqs |-> UNION {Seqs(n) : n \in 1..3}])
